@@ -22,7 +22,12 @@ type dmConfig struct {
 	faults bool // C13: fault states, transient faults, repairs
 }
 
-var dirPool = []string{"/etc/cdi", "/run/cdi", "/opt/vendor/cdi", "/usr/local/etc/cdi"}
+// "/etc/cdi.d" has "/etc/cdi" as a bare string prefix, "/etc/cdi/sub/cdi" lies inside another candidate (not as a direct child: the scan tracker tells a configured directory from a directory entry by its path)
+var dirPool = []string{"/etc/cdi", "/run/cdi", "/opt/vendor/cdi", "/usr/local/etc/cdi", "/etc/cdi.d"}
+
+// dirPoolNested is used where the scenario does not put files of its own making
+// (a regular file in place of an ancestor) into candidate directories.
+var dirPoolNested = append(append([]string(nil), dirPool...), "/etc/cdi/sub/cdi")
 var specNames = []string{"a.json", "b.yaml", "c.yaml", "vendor-gpu.json", "z.json", ".json", "a.json.yaml"}
 var otherNames = []string{"README", "x.yml", "x.yaml.bak", "notes.txt", "y.json.tmp", "X.JSON", "b.Yaml", "json"}
 
